@@ -145,10 +145,12 @@ def template_msg_len(ies):
 
 
 def fail_kind(rng, msglen=None):
-    """err / refused (ECONNREFUSED of a connected UDP socket) / short<k> with k below the message length"""
+    """err / errfull / refused (ECONNREFUSED of a connected UDP socket) / short<k> with k below the message length"""
     r = rng.random()
-    if r < 0.3:
+    if r < 0.2:
         return "err"
+    if r < 0.35:
+        return "errfull"      # the Write returns the FULL length and an error (what pion/dtls does): still a failed write
     if r < 0.7:
         return "refused"
     ks = [0, 1, 3, 4, 7, 8, 15, 16, 19, 20, 21]
